@@ -62,3 +62,80 @@ Example C08_src_runs :
     = montgomery_reduction [2 ^ 64 - 1; 2 ^ 64 - 1; 2 ^ 64 - 1] [2 ^ 64 - 238; 2 ^ 64 - 1; 2 ^ 64 - 1] m k /\
   fst (fst (g_montgomery_reduction_inner [2 ^ 64 - 238; 2 ^ 64 - 1; 2 ^ 64 - 1] [2 ^ 64 - 1; 2 ^ 64 - 1; 2 ^ 64 - 1] m k)) = 1.
 Proof. vm_compute. repeat split. Qed.
+
+
+(** ---- the almost-Montgomery multiplication of src/modular/boxed_monty_form/mul.rs (Src/GenAmm.v, proofs in Src/GenAmmP.v):
+    every limb count n >= 1 (n a usize), all limb values.  The functions write through `z: &mut [Limb]`; a generated function
+    returns the final contents of z (after its value, if it has one) ---- *)
+From CB Require Import Src.GenUintP Src.GenAmm Src.GenAmmP Proofs.MontyAmmP.
+
+(** add_mul_carry (z += x * y in place, carry returned) is one multiply-accumulate row of the model *)
+Theorem C08_src_add_mul_carry : forall z x y, length x = length z -> usz (length z) -> wf z -> wf x -> is_word y ->
+  g_add_mul_carry z x y = (snd (add_mul_carry z x y), fst (add_mul_carry z x y)).
+Proof. exact g_add_mul_carry_eq. Qed.
+Print Assumptions C08_src_add_mul_carry.
+
+(** add_mul_carry_and_shift (`while i < n && i1 < n`: reads z[i], writes z[i - 1]) is the tail of the row; the last limb is
+    left as it was (the caller overwrites it) *)
+Theorem C08_src_add_mul_carry_and_shift : forall z x y, length x = length z -> (1 <= length z)%nat -> usz (length z) ->
+  wf z -> wf x -> is_word y ->
+  g_add_mul_carry_and_shift z x y = (snd (add_mul_carry_and_shift z x y), fst (add_mul_carry_and_shift z x y) ++ [last z 0]).
+Proof. exact g_add_mul_carry_and_shift_eq. Qed.
+Print Assumptions C08_src_add_mul_carry_and_shift.
+
+Theorem C08_src_conditional_sub : forall z x c, length x = length z -> usz (length z) -> wf z -> wf x -> is_word c ->
+  g_conditional_sub z x c = conditional_sub z x c.
+Proof. exact g_conditional_sub_eq. Qed.
+Print Assumptions C08_src_conditional_sub.
+
+(** almost_montgomery_mul: the outer CIOS loop with the two-level carry (ts, ts1) started on ANY buffer z is the model loop
+    over the limbs of y, followed by the conditional subtraction on overflow *)
+Theorem C08_src_almost_montgomery_mul : forall z x y m k, length z = length m -> length x = length m -> length y = length m ->
+  (1 <= length m)%nat -> usz (length m) -> wf z -> wf x -> wf y -> wf m -> is_word k ->
+  g_almost_montgomery_mul z x y m k =
+    conditional_sub (fst (amm_loop y z 0 x m k)) m (from_word_lsb (snd (amm_loop y z 0 x m k))).
+Proof. exact g_almost_montgomery_mul_eq. Qed.
+Print Assumptions C08_src_almost_montgomery_mul.
+
+Theorem C08_src_almost_montgomery_mul_by_one : forall z x m k, length z = length m -> length x = length m ->
+  (1 <= length m)%nat -> usz (length m) -> wf z -> wf x -> wf m -> is_word k ->
+  g_almost_montgomery_mul_by_one z x m k =
+    conditional_sub (fst (amm1_loop (length m) true z 0 x m k)) m (from_word_lsb (snd (amm1_loop (length m) true z 0 x m k))).
+Proof. exact g_almost_montgomery_mul_by_one_eq. Qed.
+Print Assumptions C08_src_almost_montgomery_mul_by_one.
+
+(** hence on a zeroed buffer (as BoxedMontyMultiplier calls it) the SOURCE text satisfies the value equation
+    R * (AMM + e m) = x y + U m with e in {0, 1}, stays below R = 2^(64 n), and the source's claim 1
+    floor(AMM / m) <= min(floor(x / m), floor(y / m)) + 1 -- for every width, every odd m with k = -m^-1 mod 2^64, and
+    operands that need NOT be reduced *)
+Theorem C08_src_amm_correct : forall n x y m k, length x = n -> length y = n -> length m = n -> (1 <= n)%nat -> usz n ->
+  wf x -> wf y -> wf m -> is_word k -> (hd 0 m * k + 1) mod B = 0 -> 0 < eval m ->
+  let a := g_almost_montgomery_mul (zeros n) x y m k in
+  wf a /\ length a = n /\ 0 <= eval a < Bn n /\
+  (exists U e, 0 <= U < Bn n /\ 0 <= e <= 1 /\ Bn n * (eval a + e * eval m) = eval x * eval y + U * eval m) /\
+  eval a / eval m <= Z.min (eval x / eval m) (eval y / eval m) + 1.
+Proof. exact g_amm_correct. Qed.
+Print Assumptions C08_src_amm_correct.
+
+(** retrieve: AMM(x, 1) of a canonical x is canonical and is x * R^-1 mod m *)
+Theorem C08_src_amm_by_one_reduced : forall n x m k, length x = n -> length m = n -> (1 <= n)%nat -> usz n ->
+  wf x -> wf m -> is_word k -> (hd 0 m * k + 1) mod B = 0 -> eval x < eval m ->
+  let a := g_almost_montgomery_mul_by_one (zeros n) x m k in
+  wf a /\ length a = n /\ 0 <= eval a < eval m /\ (eval a * Bn n) mod eval m = eval x mod eval m.
+Proof. exact g_amm_by_one_reduced. Qed.
+Print Assumptions C08_src_amm_by_one_reduced.
+
+(** non-vacuity: the generated loops run on 3-limb inputs (m = 2^192 - 159, k = -m^-1 mod 2^64): the products agree with
+    x * y * R^-1 mod m and x * R^-1 mod m computed independently; the rows with every carry set *)
+Example C08_src_amm_runs :
+  let m := [2 ^ 64 - 159; 2 ^ 64 - 1; 2 ^ 64 - 1] in
+  let k := 13109950190749555551 in
+  (hd 0 m * k + 1) mod B = 0 /\
+  g_almost_montgomery_mul [0; 0; 0] [5; 7; 11] [2 ^ 64 - 1; 2 ^ 64 - 2; 3] m k = [8237225341090428726; 232034516650434655; 0] /\
+  (eval (g_almost_montgomery_mul [0; 0; 0] [5; 7; 11] [2 ^ 64 - 1; 2 ^ 64 - 2; 3] m k) * Bn 3) mod eval m
+    = (eval [5; 7; 11] * eval [2 ^ 64 - 1; 2 ^ 64 - 2; 3]) mod eval m /\
+  g_almost_montgomery_mul_by_one [0; 0; 0] [5; 7; 11] m k = [10209518732619122783; 8005190824439994097; 14386140032326945914] /\
+  g_add_mul_carry [1; 2; 3] [2 ^ 64 - 1; 2 ^ 64 - 1; 2 ^ 64 - 1] (2 ^ 64 - 1) = (2 ^ 64 - 1, [2; 1; 3]) /\
+  g_add_mul_carry_and_shift [1; 2; 3] [2 ^ 64 - 1; 2 ^ 64 - 1; 2 ^ 64 - 1] (2 ^ 64 - 1) = (2 ^ 64 - 1, [1; 3; 3]) /\
+  g_conditional_sub [1; 2; 3] [2; 2; 2] (2 ^ 64 - 1) = [2 ^ 64 - 1; 2 ^ 64 - 1; 0].
+Proof. vm_compute. repeat split. Qed.
